@@ -16,6 +16,7 @@ import (
 	"sort"
 	"strings"
 	"time"
+	"unicode/utf16"
 
 	"gopkg.in/yaml.v3"
 
@@ -346,8 +347,7 @@ func alphaDecl(txt string) string {
 func toYAML(v any, flow bool) []byte {
 	var node yaml.Node
 	b := core.MustJSON(v)
-	var generic any
-	_ = yaml.Unmarshal(b, &generic) // JSON is YAML
+	generic := genericOfJSON(b)
 	_ = node.Encode(generic)
 	if flow {
 		setFlow(&node)
@@ -447,4 +447,78 @@ func relOpts() sgen.Opts {
 	o := sgen.AllOpts()
 	o.Titles = true
 	return o
+}
+
+// asciiEscapeJSON rewrites a JSON text so that every non-ASCII character (as UTF-16 code units) and the
+// apostrophe appear as \uXXXX escapes: the same JSON document, another spelling.
+func asciiEscapeJSON(b []byte) []byte {
+	var out strings.Builder
+	for _, r := range string(b) {
+		switch {
+		case r == '\'':
+			out.WriteString(`\u0027`)
+		case r < 0x80:
+			out.WriteRune(r)
+		case r >= 0x10000:
+			r1, r2 := utf16.EncodeRune(r)
+			fmt.Fprintf(&out, `\u%04x\u%04x`, r1, r2)
+		default:
+			fmt.Fprintf(&out, `\u%04x`, r)
+		}
+	}
+	return []byte(out.String())
+}
+
+// toYAMLQuoted: block YAML in which every string scalar (keys included) is double-quoted.
+func toYAMLQuoted(v any) []byte {
+	var node yaml.Node
+	b := core.MustJSON(v)
+	generic := genericOfJSON(b)
+	_ = node.Encode(generic)
+	var walk func(n *yaml.Node)
+	walk = func(n *yaml.Node) {
+		if n.Kind == yaml.ScalarNode && n.Tag == "!!str" {
+			n.Style = yaml.DoubleQuotedStyle
+		}
+		for _, ch := range n.Content {
+			walk(ch)
+		}
+	}
+	walk(&node)
+	out, _ := yaml.Marshal(&node)
+	return out
+}
+
+// genericOfJSON decodes a JSON text into plain Go values for the YAML encoder.  The YAML parser is tried first
+// (JSON is YAML; integers stay integers); JSON texts it refuses (a raw DEL, ...) go through encoding/json, with
+// integral numbers turned back into ints.
+func genericOfJSON(b []byte) any {
+	var generic any
+	if err := yaml.Unmarshal(b, &generic); err == nil && generic != nil {
+		return generic
+	}
+	var g2 any
+	_ = json.Unmarshal(b, &g2)
+	var fix func(v any) any
+	fix = func(v any) any {
+		switch t := v.(type) {
+		case float64:
+			if t == float64(int64(t)) && t < 1e15 && t > -1e15 {
+				return int64(t)
+			}
+			return t
+		case map[string]any:
+			for k, x := range t {
+				t[k] = fix(x)
+			}
+			return t
+		case []any:
+			for i, x := range t {
+				t[i] = fix(x)
+			}
+			return t
+		}
+		return v
+	}
+	return fix(g2)
 }
